@@ -564,6 +564,41 @@ func c04Extra(c *Ctx) {
 					return true
 				}
 			}
+			// helper form: `if x == A { return B }; return x` - the function's other returns hand back the tested
+			// variable; every call of such a helper is a normalisation
+			if rs, isRet := ifs.Body.List[0].(*ast.ReturnStmt); isRet && len(rs.Results) == 1 && fr.Obj != nil {
+				sig := fr.Obj.Type().(*types.Signature)
+				if _, isSel := rs.Results[0].(*ast.SelectorExpr); isSel && sig.Results().Len() == 1 && types.Identical(sig.Results().At(0).Type(), tested.Type()) {
+					others, same := 0, true
+					inspectNoFuncLit(fr.Decl.Body, func(y ast.Node) bool {
+						r2, ok := y.(*ast.ReturnStmt)
+						if !ok || r2 == rs || len(r2.Results) != 1 {
+							return true
+						}
+						if _, isSel := r2.Results[0].(*ast.SelectorExpr); isSel {
+							return true
+						}
+						others++
+						if identObj(info, r2.Results[0]) != tested {
+							same = false
+						}
+						return true
+					})
+					if others > 0 {
+						for id, o := range info.Uses {
+							if o == fr.Obj {
+								nb++
+								caller := "?"
+								if fd := p.EnclosingFuncDecl(id); fd != nil {
+									caller = fd.Name.Name
+								}
+								c.Ob("NORMALISE-SAME-VAR", caller+"/via-"+fr.Decl.Name.Name, id.Pos(), same, true, "normalised through %s, which returns the variable it tested when it is not the special value: %v", fr.Decl.Name.Name, same)
+							}
+						}
+					}
+				}
+				return true
+			}
 			as, ok := ifs.Body.List[0].(*ast.AssignStmt)
 			if !ok || len(as.Lhs) != 1 || len(as.Rhs) != 1 || as.Tok != token.ASSIGN {
 				return true
